@@ -78,6 +78,10 @@ def cases(seed, quick):
             out.append({"kind": name, "bits": bits, "signed": signed, "text": list(t), "s": t, "variant": "plain", "shape": "single"})
             if t[0] in "+-" and not t[1:2] in ("+", "-", ""):
                 out.append({"kind": name, "bits": bits, "signed": signed, "text": list(t), "s": t, "variant": rng.choice(["plain", "plain", "ptr", "named", "ptrnamed"]), "shape": "joined"})
+                if rng.random() < 0.5:   # an elided token between the sign and the number: only the captured tokens are joined
+                    out.append({"kind": name, "bits": bits, "signed": signed, "text": list(t), "s": t, "variant": rng.choice(["plain", "ptr", "named"]), "shape": "joinedsp"})
+            if rng.random() < 0.3:       # the same scalar field captured twice: every capture is converted, the last one is kept
+                out.append({"kind": name, "bits": bits, "signed": signed, "text": list(t), "s": t, "variant": rng.choice(["plain", "ptr", "named"]), "shape": rng.choice(["multifirst", "multilast"])})
             r = rng.random()
             if r < 0.25:
                 out.append({"kind": name, "bits": bits, "signed": signed, "text": list(t), "s": t, "variant": rng.choice(["ptr", "named", "slice", "slicegrp", "ptrnamed"]), "shape": "single"})
@@ -90,4 +94,5 @@ def cases(seed, quick):
                 fl.append({"kind": k, "bits": 32 if k == "float32" else 64, "signed": True, "text": list(t), "s": t, "variant": var, "shape": "single"})
             if t[0] in "+-" and t[1:2] not in ("+", "-", ""):
                 fl.append({"kind": k, "bits": 32 if k == "float32" else 64, "signed": True, "text": list(t), "s": t, "variant": rng.choice(["plain", "ptr", "named"]), "shape": "joined"})
+                fl.append({"kind": k, "bits": 32 if k == "float32" else 64, "signed": True, "text": list(t), "s": t, "variant": rng.choice(["plain", "ptr", "named"]), "shape": "joinedsp"})
     return out, fl
